@@ -168,6 +168,14 @@ def _voxel_specs(tier):
                           "center": [0, 0, 0]}),
         ("ellipsoid111", {"cls": "Ellipsoid", "r": [1.0, 1.0, 1.0],
                           "center": [0, 0, 0]}),
+        # a rotated ellipsoid: its volume does not depend on the rotation,
+        # and whatever contains() reports inside must be inside the bounds
+        ("ellipsoid123-rot", {"cls": "Ellipsoid", "r": [1.0, 2.0, 3.0],
+                              "center": [1.0, -2.0, 3.0],
+                              "rotation": [0.3, 0.9, 0.4]}),
+        ("ellipsoid311-rot", {"cls": "Ellipsoid", "r": [3.0, 1.0, 1.0],
+                              "center": [0, 0, 0],
+                              "rotation": [0.0, 1.5707963267948966, 0.0]}),
     ]
     for name, spec in prim:
         for k in ks:
@@ -267,8 +275,11 @@ def _build(spec, n_override=None):
         return LayeredSphere(n=_layer_n(spec["layers"]), t=list(spec["t"]),
                              center=c)
     if spec["cls"] == "Ellipsoid":
+        kw = {}
+        if "rotation" in spec:
+            kw["rotation"] = tuple(spec["rotation"])
         return Ellipsoid(n=n_override or NIDX[0], r=tuple(spec["r"]),
-                         center=c)
+                         center=c, **kw)
     raise ValueError(spec["cls"])
 
 
@@ -833,6 +844,14 @@ def _run_voxel(case, ck):
                 "%s: %d voxels carry index %r but %d voxels are in domain %d"
                 % (case["id"], cnt, n, cnt_d, i + 1))
         acc.append(cnt)
+    if "rotation" in spec:
+        rmax = max(max(ax) for ax in model["surf"])
+        g = np.linspace(-rmax, rmax, 25)
+        pts = np.stack(np.meshgrid(g, g, g, indexing="ij"), -1).reshape(
+            -1, 3) + model["c"]
+        ins = np.asarray(obj.contains(pts)).ravel() != 0
+        ck.trans += 1
+        _check_bounds(ck, obj, pts, ins, case["id"], "bounds")
     known = np.zeros(vox.shape, bool)
     for n in model["n"]:
         known |= vox == n
